@@ -326,6 +326,12 @@ class JModel:
                             return "EL"
                         if a in self.LINKSTR_ATTRS:
                             return "EL"
+                if node.args and isinstance(node.args[0], N.Const) and isinstance(node.args[0].value, str):
+                    # map("filter", ...) applies the filter to every element
+                    fname = node.args[0].value
+                    if fname in ("lower", "upper", "trim", "string", "safe", "title", "capitalize", "replace"):
+                        return b     # elements keep their links
+                    return "S"
                 return "S"
             if node.name in ("first", "last", "random"):
                 return "E" if b == "EL" else b
